@@ -21,6 +21,8 @@ type profileSpec struct {
 	name     string
 	gen      func(r *RNG, nBlocks int) []string
 	monitors func() []Monitor
+	node     bool
+	conc     int
 }
 
 func runChainProfile(p profileSpec, seed uint64, n int, out string, replay string, nBlocks int) {
@@ -35,7 +37,14 @@ func runChainProfile(p profileSpec, seed uint64, n int, out string, replay strin
 	run := func(lines []string) {
 		x := NewExec(o)
 		x.Mons = p.monitors()
+		x.WantNode, x.WantConc = p.node, p.conc
 		x.Run(lines)
+		if x.Node != nil && x.Node.conc != nil {
+			x.Node.conc.finish(x)
+		}
+		if x.Node != nil && x.Node.twin != nil {
+			x.Node.twin.Close()
+		}
 		if x.C != nil {
 			x.C.Close()
 		}
